@@ -299,7 +299,9 @@ def check(prop, tier):
                 viol_runs.append((r, v))
             else:
                 k = "%s/%s/%s" % (v["property"], v["oracle"], v["key"])
-                aux[k] = aux.get(k, 0) + 1
+                if k not in aux:
+                    aux[k] = {"count": 0, "example_seed": r["seed"], "example_message": v["message"][:400]}
+                aux[k]["count"] += 1
 
     new_viol = []
     known_seen = {}
